@@ -219,6 +219,29 @@ func runC16(c *Check, a *Analysis) {
 	if nl == 0 {
 		c.Undecided("R-LIVE-LIST", "no non-empty store into Client.list found")
 	}
+	// in the rebuilding function: the list is emptied when no target is alive, and the
+	// remembered address set is stored together with the list
+	for _, s := range p.storesToField("Client", "list") {
+		st := s.Instr.(*ssa.Store)
+		if isEmptySliceValue(p, st.Val) || baseIsLocalAlloc(s.Base) {
+			continue
+		}
+		fn := s.Fn
+		hasEmpty := false
+		for _, e := range p.fieldStoresIn(fn, "Client", "list") {
+			if isEmptySliceValue(p, e.Val) && !p.canReach(st, e, nil) && !p.canReach(e, st, nil) {
+				hasEmpty = true
+			}
+		}
+		c.Ob("R-LIVE-LIST", sc.key(fn, "list emptied when nothing is alive"), p.InstrPos(st), hasEmpty, ifs(!hasEmpty, "when the rebuild finds no live target the old live list is kept: calls keep being routed to dead targets instead of waiting"))
+		okLast := false
+		for _, l2 := range p.fieldStoresIn(fn, "Client", "last") {
+			if !isEmptySliceValue(p, l2.Val) && (ls.SameSection(l2, st, "Client.lock") || ls.SameSection(st, l2, "Client.lock")) {
+				okLast = true
+			}
+		}
+		c.Ob("R-LIVE-LIST", sc.key(fn, "remembered address set stored with the list"), p.InstrPos(st), okLast, ifs(!okLast, "Client.last is not updated with the live list: every probe rebuilds the list and resets the cursor (round-robin keeps restarting)"))
+	}
 
 	// ---- addresses handed to the RoundTripper
 	c.Rule("R-ROUTE-ADDR", "every address a Client method passes to its RoundTripper originates from director()'s results, the empty-string constant, or (health probe) the probed target's address", 12)
@@ -647,6 +670,30 @@ func runC17(c *Check, a *Analysis) {
 		}
 	}
 
+	c.Rule("R-PROBE-RESET", "the health prober feeds every target it finds not alive into target.Update with ErrDial (reset to the maximum latency)", 1)
+	nReset := 0
+	for _, fn := range p.Fns {
+		if recvName(topParent(fn)) != "Client" {
+			continue
+		}
+		for _, up := range callsIn(fn, "(*target).Update") {
+			args := up.Common().Args
+			if isGlobalLoad(p.canon(args[len(args)-1]), "ErrDial") {
+				nReset++
+				g, _ := p.guardedBy(up.(ssa.Instruction), negate(func(cond ssa.Value) (bool, bool) {
+					if isLoadOf(p.canon(cond), "target", "alive") {
+						return true, true
+					}
+					return false, false
+				}))
+				c.Ob("R-PROBE-RESET", sc.key(fn, "dead target ⇒ Update(…, ErrDial)"), p.InstrPos(up), g, ifs(!g, "the reset to the maximum latency is not tied to the target being not alive"))
+			}
+		}
+	}
+	if nReset == 0 {
+		c.Ob("R-PROBE-RESET", "prober#resets dead targets", 0, false, "the prober never resets the latency of targets it finds dead: least-time keeps preferring a dead target")
+	}
+
 	c.Rule("R-RESET-MAX", "target.Update stores the clientLatency constant exactly on the not-alive arm", 1)
 	if tu := p.Fn("(*target).Update"); tu == nil {
 		c.Undecided("R-RESET-MAX", "(*target).Update not found")
@@ -730,7 +777,17 @@ func runC18(c *Check, a *Analysis) {
 		c.Ob("R-RDV-CLIENT", sc.key(fn, "pending[seq]=w only if not closed, same section"), p.InstrPos(m.Instr), g, ifs(!g, "a waiter can be parked in Client.pending after Close has swept it: the caller waits for the full DialTimeout (or forever)"))
 	}
 	if chk == nil {
-		c.Undecided("R-RDV-CLIENT", "(*Client).checkClosed not found")
+		// the closed test may be inlined into the registering function
+		for _, m := range p.mapOps("Client", "pending") {
+			if m.Kind == "update" {
+				if _, n := p.guardEdges(m.Fn, matchAtomicFlag("Client", "closed")); n > 0 {
+					chk = m.Fn
+				}
+			}
+		}
+	}
+	if chk == nil {
+		c.Undecided("R-RDV-CLIENT", "no function tests Client.closed for an arriving waiter")
 	} else {
 		// on the closed edge: err = ErrShutdown and done()
 		edges, n := p.guardEdges(chk, matchAtomicFlag("Client", "closed"))
@@ -785,6 +842,38 @@ func runC18(c *Check, a *Analysis) {
 			}
 			c.Ob("R-RDV-CLIENT", sc.key(cl, "sweep: delete + ErrShutdown + done"), p.InstrPos(rng.Instr), okDel && okDone && okErr, ifs(!(okDel && okDone && okErr), "Close's sweep does not remove every waiter, set ErrShutdown and signal it"))
 		}
+	}
+
+	// ---- waiter keys are unique
+	c.Rule("R-WAITER-SEQ", "a waiter is registered under a key read from Client.seq and Client.seq is incremented in the same critical section (two waiters never share a key: the second would overwrite the first, which is then never woken)", 2)
+	for _, m := range p.mapOps("Client", "pending") {
+		if m.Kind != "update" {
+			continue
+		}
+		fromSeq := false
+		var seqLoad ssa.Instruction
+		for _, o := range p.origins(m.Key) {
+			o = p.canon(o)
+			if isLoadOf(o, "Client", "seq") {
+				fromSeq, seqLoad = true, o.(ssa.Instruction)
+			}
+			// through w.seq = c.seq
+			if fr, _, ok := fieldOfLoad(o); ok && fr.Struct == "waiter" && fr.Field == "seq" {
+				for _, st := range p.fieldStoresIn(m.Fn, "waiter", "seq") {
+					if isLoadOf(p.canon(st.Val), "Client", "seq") && p.dominatesInstr(st, m.Instr) {
+						fromSeq, seqLoad = true, p.canon(st.Val).(ssa.Instruction)
+					}
+				}
+			}
+		}
+		c.Ob("R-WAITER-SEQ", sc.key(m.Fn, "key from Client.seq"), p.InstrPos(m.Instr), fromSeq, ifs(!fromSeq, "the waiter's key does not come from Client.seq"))
+		inc := false
+		for _, st := range p.fieldStoresIn(m.Fn, "Client", "seq") {
+			if b, ok := st.Val.(*ssa.BinOp); ok && b.Op == token.ADD && isLoadOf(p.canon(b.X), "Client", "seq") && seqLoad != nil && ls.SameSection(seqLoad, st, "Client.lock") {
+				inc = true
+			}
+		}
+		c.Ob("R-WAITER-SEQ", sc.key(m.Fn, "Client.seq++ in the same section"), p.InstrPos(m.Instr), inc, ifs(!inc, "Client.seq is not advanced when a waiter is registered: the next waiter overwrites this one in Client.pending and this caller is never woken"))
 	}
 
 	// ---- ordering inside the waiter protocol
@@ -1097,6 +1186,19 @@ func runC18(c *Check, a *Analysis) {
 			}
 			c.Ob("R-ALIVE-FLAG", sc.key(al, "alive="+constStr(cst)), p.InstrPos(s), g, ifs(!g, "target.alive="+constStr(cst)+" is not tied to err == ErrDial: application errors mark targets dead (or dial failures do not)"))
 		}
+	}
+	if al := p.Fn("(*target).Alive"); al != nil {
+		hasFalse, hasTrue := false, false
+		for _, s := range p.fieldStoresIn(al, "target", "alive") {
+			if cst, ok := s.Val.(*ssa.Const); ok {
+				if constStr(cst) == "false" {
+					hasFalse = true
+				} else {
+					hasTrue = true
+				}
+			}
+		}
+		c.Ob("R-ALIVE-FLAG", "(*target).Alive#marks dead and alive", al.Pos(), hasFalse && hasTrue, ifs(!(hasFalse && hasTrue), "target.Alive never marks a target dead (or never alive): an unreachable target keeps receiving calls / a recovered one is never used"))
 	}
 	for _, s := range p.storesToField("target", "alive") {
 		if fname(s.Fn) != "(*target).Alive" && !baseIsLocalAlloc(s.Base) {
